@@ -358,6 +358,11 @@ func (n *Node[T]) Accept(ctx context.Context, block Block) (ExecutedBlock[T], er
 						return
 					}
 
+					if response.id != chunkCert.ChunkID {
+						result <- fmt.Errorf("requested chunk %s, peer returned chunk %s", chunkCert.ChunkID, response.id)
+						return
+					}
+
 					if _, err := n.storage.VerifyRemoteChunk(response); err != nil {
 						result <- err
 						return
